@@ -30,6 +30,7 @@ def gen_program(rng, max_ranks=8, nsteps=20, with_test=True):
     nreq = [0] * n
     pending = [[] for _ in range(n)]   # (idx, key)
     kinds = set()
+    classes = set()
 
     def wait_one(r, op):
         if not pending[r]:
@@ -38,6 +39,8 @@ def gen_program(rng, max_ranks=8, nsteps=20, with_test=True):
         idx = min(i for i, k in pending[r] if k == key)      # the replayer pops requests of one (src, dst, tag) in FIFO order
         st[r].append("%s %d" % (op, idx))
         kinds.add(op)
+        if op == "test" and any(k == key and i > idx for i, k in pending[r]):
+            classes.add("test-same-key")     # a younger pending request shares (src, dst, tag) with the tested one
         if op == "wait":
             pending[r] = [(i, k) for i, k in pending[r] if i != idx]
     for _ in range(nsteps):
@@ -104,7 +107,7 @@ def gen_program(rng, max_ranks=8, nsteps=20, with_test=True):
         if pending[r]:
             st[r].append("waitall")
     txt = "@n %d\n" % n + "".join("@rank %d\n%s\n" % (r, "\n".join(st[r])) for r in range(n)) + "@end\n"
-    return {"n": n, "ranks": st, "kinds": sorted(kinds)}, txt
+    return {"n": n, "ranks": st, "kinds": sorted(kinds), "classes": sorted(classes)}, txt
 
 
 def date_parts(txt):
@@ -217,6 +220,7 @@ def run(ctx):
     ctx.cov["programs"] = len(progs)
     ctx.cov["calls_compared"] = ncalls
     ctx.cov["programs_using_call"] = kinds
+    ctx.cov["programs_in_class_test-same-key"] = sum(1 for p in progs if "test-same-key" in p["classes"])
     ctx.cov["max_date_difference_ps"] = max([v[3] for v in verdicts if v[0] == "ok"] or [0])
     ctx.cov["tolerance_ps"] = TOL_PS
     ctx.cov["rule"] = ("seeded random MPI programs of 2..8 ranks over the calls the replayer registers (global step sequence projected "
@@ -256,8 +260,10 @@ def run(ctx):
         files.update(tifiles)
         ctx.violation("replay disagrees with the online run (%s) at rank %d call #%d (difference %s ps): online %s replay %s%s" %
                       (why, r - 1, k, diff, json.dumps(on), json.dumps(rp), " replay rc=%s %s" % (x2["replay_rc"], x2.get("replay_tail", "")) if x2["replay_rc"] else ""),
-                      files=files, signature="C37:%s:%s:%s" % (why, (x2["online"][r - 1][k - 1]["c"] if r >= 1 and k <= len(x2["online"][r - 1]) else "end"),
-                                                            vlib.canon_hash(progs[i])),
+                      files=files,
+                      signature=("C37:test-same-key:%s" % vlib.canon_hash(progs[i])) if "test-same-key" in progs[i]["classes"] else
+                      "C37:%s:%s:%s" % (why, (x2["online"][r - 1][k - 1]["c"] if r >= 1 and k <= len(x2["online"][r - 1]) else "end"),
+                                        vlib.canon_hash(progs[i])),
                       detail=json.dumps(brief(progs[i])))
     ctx.cov["disagreements_checked"] = checked
     ctx.assumptions += ["the online run is the reference; both runs use the same platform, hostfile, rank placement and options",
